@@ -59,7 +59,8 @@ static int rule_pos (char want, okind k) {
 
 /* ---- case space ---- */
 /* section 0: cross product per rule; section 1: arity; section 2: scripted declaration / ret / call faults */
-static uint64_t first[NRULES + 1], n_cross, n_arity, n_script;
+static uint64_t first[NRULES + 1], n_cross, n_arity, n_script, n_memreg;
+#define NMEMREG (5 * 5 * 3) /* base kind x index kind x position of the memory operand */
 static int nops_of (int r) { return (int) strlen (rule_sig[r]); }
 #define NSCRIPT 40
 void drv_init (int thorough) {
@@ -73,9 +74,9 @@ void drv_init (int thorough) {
     first[r + 1] = first[r] + n;
   }
   mh_close (&mc);
-  n_cross = first[NRULES]; n_arity = NRULES * 2; n_script = NSCRIPT;
+  n_cross = first[NRULES]; n_arity = NRULES * 2; n_script = NSCRIPT; n_memreg = NMEMREG;
 }
-uint64_t drv_ncases (void) { return n_cross + n_arity + n_script; }
+uint64_t drv_ncases (void) { return n_cross + n_arity + n_script + n_memreg; }
 
 static int locate (uint64_t idx, int *rule, okind *k) {
   for (int r = 0; r < NRULES; r++) if (idx < first[r + 1]) { uint64_t l = idx - first[r]; *rule = r; for (int p = 0; p < nops_of (r); p++) { k[p] = l % K_N; l /= K_N; } return 1; }
@@ -94,7 +95,9 @@ void drv_describe (uint64_t idx, char *buf, size_t n) {
   int r; okind k[4];
   if (idx < n_cross) { locate (idx, &r, k); size_t l = snprintf (buf, n, "C15 cross op=%s sig=%s kinds=", rule_name[r], rule_sig[r]); for (int p = 0; p < nops_of (r) && l < n; p++) l += snprintf (buf + l, n - l, "%s%s", p ? "," : "", KNAME[k[p]]); }
   else if (idx < n_cross + n_arity) { uint64_t l = idx - n_cross; snprintf (buf, n, "C15 arity op=%s nops%s1", rule_name[l / 2], l % 2 ? "+" : "-"); }
-  else snprintf (buf, n, "C15 script: %s", SCRIPT_NAME[idx - n_cross - n_arity]);
+  else if (idx < n_cross + n_arity + n_script) snprintf (buf, n, "C15 script: %s", SCRIPT_NAME[idx - n_cross - n_arity]);
+  else { static const char *RK[] = {"none", "int-reg", "float-reg", "double-reg", "undeclared-reg"}, *PS[] = {"mov source", "mov destination", "second source of add"}; uint64_t l = idx - n_cross - n_arity - n_script;
+    snprintf (buf, n, "C15 memory operand registers: base=%s index=%s position=%s", RK[l % 5], RK[l / 5 % 5], PS[l / 25]); }
 }
 
 /* ---- building ---- */
@@ -204,6 +207,14 @@ void drv_case (uint64_t idx) {
       MIR_append_insn (e.ctx, e.f, MIR_new_insn_arr (e.ctx, rule_code[r], n, ops)); finish (&e); });
     if (!errored) vp_fail ("accepted-ill-formed", "insn created with %d operands instead of %d", n, nops_of (r));
     else if (ecode != MIR_ops_num_error) vp_count ("arity_other_code", 1);
+    vp_nontrivial ();
+  } else if (idx >= n_cross + n_arity + n_script) { /* registers inside a memory operand: each of base and index must be a declared integer register */
+    uint64_t l = idx - n_cross - n_arity - n_script; int bk = l % 5, ik = l / 5 % 5, pos = (int) (l / 25), expect = !(bk <= 1 && ik <= 1);
+    GUARD (&mc, { setup (&e, &mc, 0, 0); MIR_reg_t rk[5] = {0, e.ri, e.rf, e.rd, 999};
+      MIR_op_t m = MIR_new_mem_op (e.ctx, MIR_T_I64, 8, rk[bk], rk[ik], 1), R = MIR_new_reg_op (e.ctx, e.ri2);
+      MIR_append_insn (e.ctx, e.f, pos == 0 ? MIR_new_insn (e.ctx, MIR_MOV, R, m) : pos == 1 ? MIR_new_insn (e.ctx, MIR_MOV, m, R) : MIR_new_insn (e.ctx, MIR_ADD, R, R, m)); finish (&e); });
+    if (expect && !errored) vp_fail ("accepted-ill-formed", "a memory operand with a non-integer or undeclared base/index register was accepted");
+    else if (!expect && errored) vp_fail ("rejected-well-formed", "error code %d: %s", (int) ecode, mc.errmsg);
     vp_nontrivial ();
   } else {
     int s = (int) (idx - n_cross - n_arity), expect = 1;
